@@ -25,7 +25,9 @@ EXTENDS Ref, Defects
 
 OList(vals, wu)    == [cl |-> "List", vals |-> vals, wu |-> wu]
 ODict(ks, vals)    == [cl |-> "Dict", ks |-> ks, vals |-> vals]
-OMap(fn, sub)      == [cl |-> "Map", fn |-> fn, sub |-> sub]
+OMap(fn, sub)      == [cl |-> "Map", fn |-> fn, sub |-> sub, par |-> 0]
+\* ParMapDataset: map through lazy_parallel_map with buffer_size = par >= 1
+OPMap(fn, sub, bs) == [cl |-> "Map", fn |-> fn, sub |-> sub, par |-> bs]
 OFilter(p, sub)    == [cl |-> "Filter", p |-> p, sub |-> sub]
 OSlice(sidx, sub)  == [cl |-> "Slice", sidx |-> sidx, sub |-> sub]
 OConcat(subs)      == [cl |-> "Concat", subs |-> subs]
@@ -404,7 +406,14 @@ It(t, wk) ==
     [] t.cl = "Dict" ->
          IF wk THEN ItR([j \in 1..Len(t.vals) |-> PairV(t.ks[j], t.vals[j])], "none")
          ELSE ItR(t.vals, "none")
-    [] t.cl = "Map" -> MapIt(It(t.sub, wk), t.fn, wk)
+    [] t.cl = "Map" ->
+         LET r == It(t.sub, wk) IN
+         IF t.par = 0 \/ r.exc = "none" THEN MapIt(r, t.fn, wk)
+         \* lazy_parallel_map iterates its input in the consumer's thread and
+         \* keeps `buffer_size` results queued: when the INPUT raises, the
+         \* exception propagates at once and the queued results are lost
+         ELSE LET lim == IF Len(r.items) > t.par THEN Len(r.items) - t.par ELSE 0
+              IN MapIt(ItR(SubSeq(r.items, 1, lim), r.exc), t.fn, wk)
     [] t.cl = "Filter" ->
          LET r  == CutNonPairs(It(t.sub, wk), wk)
              ps == SelectIdx(r.items, LAMBDA x : Pred(t.p, ItemVal(x, wk)), 1)
@@ -510,7 +519,7 @@ BuildUnary(a, t) ==
     \* ParMapDataset(MapDataset): indexable / len / keys / __getitem__ inherited;
     \* __iter__ = lazy_parallel_map(fn, input or input.__iter__(with_key=True)):
     \* results in submission order (PoolMap.tla), so the same model object
-    [] a.op = "pmap" -> IF a.w < 1 THEN BErr("AssertionError") ELSE BOk(OMap([nm |-> a.f], t))
+    [] a.op = "pmap" -> IF a.w < 1 THEN BErr("AssertionError") ELSE BOk(OPMap([nm |-> a.f], t, a.bs))
     [] a.op = "fmap" -> BOk(OMap([nm |-> "fail", p |-> a.p, cls |-> a.cls], t))
     [] a.op = "filter" ->
          IF a.lazy THEN BOk(OFilter(a.p, t))
